@@ -74,15 +74,19 @@ Section Run.
     | WEnv o :: r => replay (env_step w o) r
     | WHandshake h seen :: r =>
         let '(own, kids, res, w') := handshake is_space w h in
+        (* a handshake found waiting on itself is abandoned by the harness there (the time-out is
+           not waited out): its result and the state it would leave are not observed *)
+        let hung := existsb (existsb (fun e => match e with ESelfWait _ => true | _ => false end)) (s_effects seen) in
         let agree :=
           list_eqb (list_eqb effect_eqb) (canon own kids)
                    (match s_effects seen with
                     | o :: k => canon o k
                     | [] => canon [] []
                     end) &&
-          result_eqb res (s_res seen) &&
-          same_set N.eqb (map c_id (w_cache w')) (s_cache seen) &&
-          same_set pair_eqb (map (fun kv => (fst kv, c_id (snd kv))) (w_store w')) (s_store seen) in
+          (hung ||
+           result_eqb res (s_res seen) &&
+           same_set N.eqb (map c_id (w_cache w')) (s_cache seen) &&
+           same_set pair_eqb (map (fun kv => (fst kv, c_id (snd kv))) (w_store w')) (s_store seen)) in
         let spec := spec_hs is_space (w_od w) (h_name h) (s_effects seen) in
         let '(a, s) := replay w' r in
         (agree && a, spec && s)
